@@ -58,6 +58,10 @@ def instances(tier):
             for dense in (True, False):
                 out.append(dict(id="event-fault-%s-k%02d-%s" % (fam, k, "dense" if dense else "nodense"), family=fam, N=2, where="event", k=k, exc="RuntimeError",
                                 dense=dense, budget=b))
+    # reset() right after the failure (no resume in between) - in particular after a failure in the very first step
+    for fam in ("euler", "rk4", "sympl_euler", "dopri45"):
+        for k in ((2,) if quick else (1, 2, 3, 6)):
+            out.append(dict(id="rhs-fault-%s-k%02d-reset-directly" % (fam, k), family=fam, N=2, where="rhs", k=k, exc="RuntimeError", reset_directly=True, budget=b))
     # the rhs leaves its domain: it RETURNS NaN at its k-th evaluation (no exception).  Garbage in, garbage out for that run - but
     # reset() must still restore a system that reproduces a fresh one (nothing non-finite may survive inside the integrator object)
     for fam in ("euler", "rk4", "sympl_euler"):
@@ -334,6 +338,23 @@ def scenario(c, inst):
         if pieces == nA - 1 and pieces > 0:
             c.check("c12.dense_output_piece_end_times_are_recorded_times",
                     c.all([c.eq(step_order(sol.t_eval)[i], A.t[i + 1]) for i in range(pieces)]))
+        if inst.get("reset_directly"):
+            # the caller gives up on the failed run: reset() right after the failure, whatever had (not) been recorded by then
+            rhsA.fault_at = None
+            cbstate["off"] = True
+            st4, r4 = run(A.reset)
+            c.check("c12.reset_runs", st4 == "ok", info=repr(r4))
+            if st4 == "ok":
+                sol = A.sol
+                pristine = [len(A.t) == 1, len(A.y) == 1, len(A.events) == 0, A.nfev == 0,
+                            A.integration_status == "Integration has not been run.", sol is not None and len(sol) == 0]
+                c.check("c12.reset_right_after_the_failure_restores_pristine_observables", all(pristine), info=dict(flags=pristine, rows_at_fault=nA))
+                c.check("c12.reset_restores_t0_y0_dt0", c.all([c.eq(A.t[0], t0), _eqv(c, A.y[0], B.y[0]), c.eq(absval(c, A.dt), adt), c.lt(0, A.dt * (tf - t0))]))
+                if kind == "fixed":
+                    st5, r5 = run(A.integrate, callback=[spans.cap_callback(c, cap, kind)])
+                    c.check("c12.run_after_reset_equals_fresh_run", st5 == "ok" and len(A.t) == nB and _rows_equal(c, A, B, min(len(A.t), nB)) and spans.status_ok(A),
+                            info=dict(st=st5, nA=len(A.t), nB=nB, status=A.integration_status[:50]))
+            return
         # (4) resume
         rhsA.fault_at = None
         cbstate["off"] = True
